@@ -7,8 +7,8 @@ PROP = dict(
     corr=["Model/SvcCorr.vo", "Model/C09Corr.vo"],
     design_ref="DESIGN.md §6 C09",
     technique="Coq theorems over an executable model of the service layer (OnMessageReceived routing, request handlers, lockSwap, store) on top of the state-machine model; operation-level vm_compute correspondence against the real SwapService with a real bbolt store; monitors on the observed node states",
-    level_text="Machine-checked for all node states, tables and environments: a message from anyone but the counterparty, or about an unknown swap, changes nothing; a request re-using a known swap id (active, finished, not yet recovered) is refused and changes nothing (after the fix: commit); no step changes a swap's request fields except by the context of that step. The statement for messages the current state does not accept is kept in full, refuted by a Coq witness and recorded as a known finding.",
-    level_note="Trusted: Coq kernel, the model of service.go (tied by the svc correspondence run: every operation's resulting active map, store content, effects and result are compared), fakes, JSON decoding of messages (C21). Known findings: event context applied and persisted before the acceptance check; nil dereference in CheckPremiumAmount after a stray agreement of the other swap direction.",
+    level_text="Machine-checked for all node states, tables and environments: a message from anyone but the counterparty, or about an unknown swap, changes nothing; a message for an active swap whose current state does not accept it changes nothing (no store write, no effect, map and store identical; after the fix: SendEvent rejects before applying the context); a request re-using a known swap id (active, finished, not yet recovered) is refused and changes nothing (after the fix: refuseKnownSwapId); no step changes a swap's request fields except by the context of that step.",
+    level_note="Trusted: Coq kernel, the model of service.go and fsm.go (tied by the svc and fsm correspondence runs: every operation's resulting active map, store content, effects and result are compared), fakes, JSON decoding of messages (C21). Repaired defects: swap-id reuse; event context applied and persisted before the acceptance check (which also made a stray agreement of the other swap direction crash CheckPremiumAmount).",
     assumptions=["operations of the service layer are modelled sequentially (the handlers hold locks only briefly; interleavings are C10/C18/C19 territory)"],
 )
 
